@@ -1025,11 +1025,22 @@ class LogHarness:
 
     def canon(self, w: LogWorld):
         lg = w.logger
-        raw_real = [_ident(e) for e in lg._raw_entries]
-        pos = {ident: i for i, ident in enumerate(raw_real)}
-        view_real = tuple((k, pos.get((k, s), -1)) for k, s in (_ident(e) for e in lg))
-        return (tuple(k for k, _ in raw_real), view_real, bool(lg.paused), w.fidx, tuple(k for k, _ in w.raw), tuple(k for k, _ in w.aged),
-                w.paused)
+        # every entry container the logger holds (ring buffer, view, ...), found by type rather than by (private) name so
+        # that internal renames / deque<->list swaps of the implementation do not break the harness
+        view = [_ident(e) for e in lg]
+        containers = []
+        for name, val in sorted(vars(lg).items()):
+            if isinstance(val, (list, tuple)) or type(val).__name__ == "deque":
+                items = list(val)
+                if all(hasattr(e, "matches") or hasattr(e, "message") for e in items):
+                    containers.append([_ident(e) for e in items])
+        order: dict = {}
+        for c in containers + [view]:
+            for ident in c:
+                order.setdefault(ident, len(order))
+        impl = tuple(sorted(tuple((k, order[(k, s)]) for k, s in c) for c in containers))
+        view_real = tuple((k, order[(k, s)]) for k, s in view)
+        return (impl, view_real, bool(lg.paused), w.fidx, tuple(k for k, _ in w.raw), tuple(k for k, _ in w.aged), w.paused)
 
     def nontrivial(self, w: LogWorld, hist):
         if w.aged or (w.raw and len(self._expected(w)) != len(w.raw) + len(w.aged)):
